@@ -599,12 +599,12 @@ def impl_value_of(res, e, recursive):
         return ('other', f'{type(ex).__name__}: {ex}'[:200])
     try:
         return ('val', to_tree(v), v)
-    except Unsupported as ex:
-        return ('other', f'unrepresentable value {v!r} ({ex})'[:200])
+    except Unsupported as ex:       # a value outside the tree language of the model: judged against sympy substitution instead
+        return ('unrep', f'unrepresentable value {v!r} ({ex})'[:200], v)
 
 
 def impl_term(g):
-    return {'val': lambda: f'(IVal {expr_term(g[1])})', 'rec': lambda: 'IRecursion', 'other': lambda: 'IOther'}[g[0]]()
+    return {'val': lambda: f'(IVal {expr_term(g[1])})', 'rec': lambda: 'IRecursion', 'other': lambda: 'IOther', 'unrep': lambda: 'IOther'}[g[0]]()
 
 
 # ---- reference: ordinary algebra, done by sympy substitution (spec level, no Cirq code involved) ----
@@ -728,13 +728,14 @@ def subexprs(e):
 
 
 def spec_value_of(ctx, cirq, entries, e, recursive, envs, stream):
-    """Decide on the real code whether the property's statement fails for this query; minimise to the smallest failing
+    """Returns None (the property holds on this query), 'known' (a recorded finding) or 'new'.
+    Decide on the real code whether the property's statement fails for this query; minimise to the smallest failing
     sub-expression (descending into dictionary values, then dropping dictionary entries that are not needed) so that the
     signature names the call site: value_of:<what goes wrong>:<head of the smallest failing expression>."""
     import sympy
     verdict = judge_value_of(cirq, entries, e, recursive, envs)
     if verdict is None:
-        return False
+        return None
     sd = sym_dict(entries)
     exc = verdict[0] if verdict[0] not in ('nan', 'value', 'symbols', 'no-loop-detected', 'RecursionError') else None
     for _ in range(40):
@@ -761,9 +762,15 @@ def spec_value_of(ctx, cirq, entries, e, recursive, envs, stream):
     head = 'sym' if isinstance(e, sympy.Symbol) else type(e).__name__.lower()
     sig = f'value_of:{verdict[0]}:{head}'
     mode = '' if recursive else ', recursive=False'
-    ctx.violation(sig, f'ParamResolver({dict(needed)!r}): {verdict[1]}{mode}',
-                  dict(kind='value_of', entries=[[k, repr_value(x)] for k, x in needed], expr=sympy_srepr(e), recursive=recursive))
-    return True
+    r = ctx.violation(sig, f'ParamResolver({dict(needed)!r}): {verdict[1]}{mode}',
+                      dict(kind='value_of', entries=[[k, repr_value(x)] for k, x in needed], expr=sympy_srepr(e), recursive=recursive))
+    return 'known' if r == 'known' else 'new'
+
+
+def worst(results):
+    """Combine the outcomes of several attributions: 'new' if any is a new violation, else 'known' if any is a recorded finding."""
+    results = [r for r in results if r]
+    return 'new' if 'new' in results else ('known' if results else None)
 
 
 def repr_value(v):
@@ -843,16 +850,23 @@ def resolver_stream(ctx, cirq, n):
         q, qt, g, g1, pnames, isp = rows[qi]
         once = 10 < code < 20
         what = names.get(code - 10 if once else code, str(code))
-        ctx.mark_broken(f'correspondence:value_of{"_once" if once else ""}:{what}',
-                        f'resolver {dict(entries)!r}, expr {q}: implementation {(g1 if once else g)[:2]} vs model')
+        bname = f'correspondence:value_of{"_once" if once else ""}:{what}'
+        bdetail = f'resolver {dict(entries)!r}, expr {q}: implementation {(g1 if once else g)[:2]} vs model'
         if code == 20:
+            ctx.mark_broken(bname, bdetail)
             want = sorted(s.name for s in q.free_symbols)
             if pnames != want or not isp:
                 ctx.violation('parameter_names', f'parameter_names({q}) = {pnames}, free symbols {want}; is_parameterized = {isp}',
                               dict(kind='names', expr=sympy_srepr(q)))
             continue
         # decide on the real code: first this query alone on a fresh resolver, then the recorded sequence (shared memo)
-        if not spec_value_of(ctx, cirq, entries, q, not once, envs, 'value_of'):
+        verdict = spec_value_of(ctx, cirq, entries, q, not once, envs, 'value_of')
+        if verdict is None and (g1 if once else g)[0] == 'unrep':
+            ctx.cov['distribution']['value_of']['outside_model_judged_by_sympy'] = ctx.cov['distribution']['value_of'].get('outside_model_judged_by_sympy', 0) + 1
+            continue
+        if verdict != 'known':
+            ctx.mark_broken(bname, bdetail)          # a recorded finding does not break the correspondence; anything else does
+        if verdict is None:
             res = make_resolver(cirq, entries)
             for (q2, _, _, _, _, _) in rows[:qi + 1]:
                 seq = impl_value_of(res, q2, True)
@@ -1097,11 +1111,7 @@ def mats_close(a, b, tol=1e-7):
 def classify_exprs(ctx, cirq, entries, exprs):
     """If the failure of a gate/circuit is already a failure of value_of on one of its parameter expressions, report that."""
     import sympy
-    hit = False
-    for e in exprs:
-        if isinstance(e, sympy.Basic) and not e.is_Number:
-            hit = spec_value_of(ctx, cirq, entries, e, True, None, 'gate') or hit
-    return hit
+    return worst([spec_value_of(ctx, cirq, entries, e, True, None, 'gate') for e in exprs if isinstance(e, sympy.Basic) and not e.is_Number])
 
 
 def all_locals(specs):
@@ -1115,19 +1125,27 @@ def all_locals(specs):
     return out
 
 
+def attribute_to_value_of(ctx, cirq, specs, entries, stream):
+    """True when value_of already fails on one of the parameter expressions: with the resolver (recursively), or in the
+    single-step resolution a CircuitOperation applies with its own param_resolver."""
+    import sympy
+    exprs = [e for s in specs for e in s['exprs']]
+    res = [classify_exprs(ctx, cirq, entries, exprs)]
+    for local, inner in all_locals(specs):
+        res += [spec_value_of(ctx, cirq, [local], e, False, None, stream) for e in inner if isinstance(e, sympy.Basic) and not e.is_Number]
+    return worst(res)
+
+
 def explain_exception(ctx, cirq, stream, specs, entries, ex, rep):
     """An unexpected exception while observing a case: attribute it to value_of on one of the parameter expressions if that
     already fails there (also the single-step resolution a CircuitOperation applies to its own param_resolver), else report it."""
     import sympy
-    ctx.mark_broken(f'differential:{stream}', f'raised {type(ex).__name__}: {ex}'[:300])
-    exprs = [e for s in specs for e in s['exprs']]
-    hit = classify_exprs(ctx, cirq, entries, exprs)
-    for local, inner in all_locals(specs):
-        for e in inner:
-            if isinstance(e, sympy.Basic) and not e.is_Number:
-                hit = spec_value_of(ctx, cirq, [local], e, False, None, stream) or hit
-    if not hit:
-        ctx.violation(f'{stream}:raises:{type(ex).__name__}', f'{stream}: {type(ex).__name__}: {ex}'[:600], rep)
+    a = attribute_to_value_of(ctx, cirq, specs, entries, stream)
+    if a == 'new':
+        ctx.mark_broken(f'differential:{stream}', f'raised {type(ex).__name__}: {ex}'[:300])
+    elif a is None:
+        ctx.disagree(f'differential:{stream}', f'raised {type(ex).__name__}: {ex}'[:300],
+                     f'{stream}:raises:{type(ex).__name__}', f'{stream}: {type(ex).__name__}: {ex}'[:600], rep)
 
 
 def gate_stream(ctx, cirq, n):
@@ -1174,9 +1192,11 @@ def gate_stream(ctx, cirq, n):
             except Exception as ex:
                 bad = f'raised {type(ex).__name__}: {ex}'[:300]
             if bad:
-                ctx.mark_broken(f'differential:gate:{gs.fam}', bad)
-                if not classify_exprs(ctx, cirq, entries, exprs):
-                    ctx.violation(f'resolve:gate:{gs.fam}', f'resolve_parameters({sg!r}, {dict(entries)!r}) [{how}] {bad}', rep)
+                a = classify_exprs(ctx, cirq, entries, exprs)
+                if a == 'new':
+                    ctx.mark_broken(f'differential:gate:{gs.fam}', bad)
+                elif a is None:
+                    ctx.disagree(f'differential:gate:{gs.fam}', bad, f'resolve:gate:{gs.fam}', f'resolve_parameters({sg!r}, {dict(entries)!r}) [{how}] {bad}', rep)
                 break
 
 
@@ -1355,8 +1375,10 @@ def check_circuit_resolution(ctx, cirq, case, exprs):
         bad = f'raised {type(ex).__name__}: {ex}'[:300]
     if bad is None:
         return resolved
-    ctx.mark_broken('differential:circuit', bad)
-    if classify_exprs(ctx, cirq, case['entries'], exprs):
+    a = attribute_to_value_of(ctx, cirq, case['specs'], case['entries'], 'circuit')
+    if a is not None:
+        if a == 'new':
+            ctx.mark_broken('differential:circuit', bad)
         return None
     blame = 'circuit'
     if resolved is not None:
@@ -1374,11 +1396,12 @@ def check_circuit_resolution(ctx, cirq, case, exprs):
             if not ok:
                 blame = blame_kind(cirq, s, kind, res, q)
                 break
-    ctx.violation(f'resolve:circuit:{blame}', f'resolve_parameters of\n{safe_str(case["sym"])}\nwith {dict(case["entries"])!r}: {bad}', circuit_replay_record(case))
+    ctx.disagree('differential:circuit', bad, f'resolve:circuit:{blame}',
+                 f'resolve_parameters of\n{safe_str(case["sym"])}\nwith {dict(case["entries"])!r}: {bad}', circuit_replay_record(case))
     return None
 
 
-def blame_kind(cirq, s, kind, res, q):
+def blame_kind(cirq, s, kind, res, q, outer=None):
     """For a failing sub-circuit, name why its innermost failing operation is not resolved, so that the signature is stable:
     sub:symbolic-constant (a sympy parameter without free symbols), sub:parameter_names:<family> (the gate does not report
     its symbols), else sub:<family>."""
@@ -1387,7 +1410,9 @@ def blame_kind(cirq, s, kind, res, q):
     if isinstance(w, tuple):
         for inner, k in zip(w[1], spec_kinds(w[1])):
             try:
-                cs = cirq.Circuit(cirq.CircuitOperation(cirq.FrozenCircuit(build_ops(cirq, [inner], 'sym', q))))
+                pr = {} if w[3] is None else {w[3][0]: w[3][1]}
+                pr.update(outer or {})
+                cs = cirq.Circuit(cirq.CircuitOperation(cirq.FrozenCircuit(build_ops(cirq, [inner], 'sym', q), cirq.CZ(q[0], q[1])), param_resolver=pr))
                 r1 = cirq.resolve_parameters(cs, res)
                 ok = not cirq.is_parameterized(r1)
                 r1.unitary(qubit_order=q)
@@ -1395,7 +1420,7 @@ def blame_kind(cirq, s, kind, res, q):
                 ok = False
             if not ok:
                 if isinstance(inner['wrap'], tuple):
-                    return blame_kind(cirq, inner, k, res, q)
+                    return blame_kind(cirq, inner, k, res, q, pr)
                 sym_exprs = [e for e in inner['exprs'] if isinstance(e, sympy.Basic)]
                 names_want = set().union(*[{x.name for x in e.free_symbols} for e in sym_exprs]) if sym_exprs else set()
                 if any(not e.free_symbols for e in sym_exprs):
@@ -1440,16 +1465,16 @@ def simulate_stream(ctx, cirq, n):
             cs = cirq.Circuit(prefix, build_ops(cirq, specs, 'sym', q))
         except Exception:
             continue
+        t = gen_numeric_sweep(rng, syms)
         try:
-            simulate_case(ctx, cirq, sim, rng, cs, specs, prefix, q, syms)
+            simulate_case(ctx, cirq, sim, rng, cs, specs, prefix, q, syms, t)
         except Exception as ex:
-            explain_exception(ctx, cirq, 'simulate_sweep', specs, direct, ex, dict(kind='simulate_sweep', circuit=repr(cs)))
+            explain_exception(ctx, cirq, 'simulate_sweep', specs, direct, ex, dict(kind='simulate_sweep', circuit=repr(cs), tree=t))
 
 
-def simulate_case(ctx, cirq, sim, rng, cs, specs, prefix, q, syms):
+def simulate_case(ctx, cirq, sim, rng, cs, specs, prefix, q, syms, t):
     if True:
         used = sorted(cirq.parameter_names(cs))
-        t = gen_numeric_sweep(rng, syms)
         try:
             sweep = build_sweep(cirq, t)
         except ValueError:
@@ -1463,8 +1488,8 @@ def simulate_case(ctx, cirq, sim, rng, cs, specs, prefix, q, syms):
             # is plain resolution with the first assignment already wrong?  then it is the circuit-resolution finding
             blame = circuit_blame(ctx, cirq, specs, q, sweep[0])
             if blame != 'circuit':
-                ctx.mark_broken('differential:simulate_sweep', f'raised {type(ex).__name__}: {ex}'[:300])
-                ctx.violation(f'resolve:circuit:{blame}', f'simulate_sweep of\n{safe_str(cs)}\nover {sweep!r} raised {type(ex).__name__}: {ex}'[:600], rep)
+                ctx.disagree('differential:simulate_sweep', f'raised {type(ex).__name__}: {ex}'[:300], f'resolve:circuit:{blame}',
+                             f'simulate_sweep of\n{safe_str(cs)}\nover {sweep!r} raised {type(ex).__name__}: {ex}'[:600], rep)
                 return
             raise
         ctx.count('simulate_sweep', [repr(cs), sweep_term(t)], len(sweep) >= 2 and bool(used), sample=dict(circuit=safe_str(cs), sweep=repr(sweep), points=len(sweep)))
@@ -1494,8 +1519,10 @@ def twin_circuit(cirq, prefix, specs, q, ents):
             return dict(s, wrap=('sub', [num_spec(x, e2) for x in inner], reps, None))
         import sympy
         assign = {}
-        for k in sym_params(s['sym'].fam, s['sym'].p):
-            v = s['sym'].p['angles'][k[1]] if isinstance(k, tuple) else s['sym'].p[k]
+        p = s['sym'].p
+        keys = [k for k in p if k != 'angles'] + [('angles', i) for i in range(len(p.get('angles', [])))]
+        for k in keys:
+            v = p['angles'][k[1]] if isinstance(k, tuple) else p[k]
             if isinstance(v, sympy.Basic):
                 x = ref_number(ents, v)
                 if x is None:
@@ -1599,7 +1626,6 @@ def flatten_stream(ctx, cirq, n):
         except Exception as ex:
             bad = f'raised {type(ex).__name__}: {ex}'[:300]
         if bad:
-            ctx.mark_broken('differential:flatten', bad)
             # is plain resolution of this circuit already wrong?  then it is not a flattening problem
             try:
                 if check_circuit_resolution(ctx, cirq, case, exprs) is None:
@@ -1608,7 +1634,7 @@ def flatten_stream(ctx, cirq, n):
                 explain_exception(ctx, cirq, 'flatten', case['specs'], case['entries'], ex, rep)
                 continue
             blame = 'sub' if any(k.startswith('sub') for k in kinds) and flatten_ok_without_subs(cirq, case) else 'circuit'
-            ctx.violation(f'flatten:{blame}', f'cirq.flatten of\n{safe_str(cs)}\n{bad}', rep)
+            ctx.disagree('differential:flatten', bad, f'flatten:{blame}', f'cirq.flatten of\n{safe_str(cs)}\n{bad}', rep)
 
 
 def flatten_ok_without_subs(cirq, case):
